@@ -53,6 +53,14 @@ func TestC15(t *testing.T) {
 			pair.New.Normalize()
 			Ev.Probe("equal_candidates_one_is_same_path")
 		}
+		retryShape := rapid.IntRange(0, 5).Draw(rt, "retryshape") == 0
+		if retryShape {
+			// two new files of fresh data that sort first: a first attempt is cancelled while it reads
+			// one of them, and that read comes back while the retry is busy with the other
+			pair.New["0ra/a.bin"] = &Entry{Kind: KFile, Data: Bytes(rapid.Uint64().Draw(rt, "raseed"), 112*KiB)}
+			pair.New["0ra/b.bin"] = &Entry{Kind: KFile, Data: Bytes(rapid.Uint64().Draw(rt, "rbseed"), 160*KiB+77)}
+			pair.New.Normalize()
+		}
 		if rapid.IntRange(0, 29).Draw(rt, "manydups") == 0 {
 			// a signature of more than 2048 hashes made of many tiny files with few distinct contents:
 			// every block exists many times, all over the signature
@@ -109,6 +117,42 @@ func TestC15(t *testing.T) {
 			}
 			if !bytes.Equal(dr.Sig, refSig) {
 				Violation(rt, "C15/signature-nondeterministic", "signature bytes differ between schedule 0 and schedule %d (first diff %d)", run, firstDiff(refSig, dr.Sig))
+				return
+			}
+		}
+		if rapid.IntRange(0, 2).Draw(rt, "retryaftercancel") == 0 || retryShape {
+			// the same DiffContext is used again after a first attempt was cancelled in the middle of
+			// a source read; what the first attempt left behind is scheduled along with the retry
+			spec := drawSched(rt)
+			s := &Sched{Spec: spec, MaxSteps: 400000}
+			at := rapid.IntRange(1, 40).Draw(rt, "cancelatread")
+			rslice := drawSlicer(rt, "srcslice")
+			releaseAt := 0
+			if rapid.Bool().Draw(rt, "lateresponse") {
+				// the read that was in flight when the first attempt was cancelled comes back while the
+				// retry is somewhere else
+				releaseAt = rapid.IntRange(1, 60).Draw(rt, "releaseatread")
+			}
+			if retryShape && rapid.IntRange(0, 3).Draw(rt, "retryaimed") != 0 {
+				// (the differ's reader takes 16 KiB at a time: reads 1..7 are a.bin, 8.. are b.bin)
+				at, releaseAt, rslice = rapid.IntRange(2, 6).Draw(rt, "aimedcancel"), rapid.IntRange(10, 17).Draw(rt, "aimedrelease"), nil
+				Ev.Probe("late_response_of_a_cancelled_diff_arrives_while_the_retry_reads_another_file")
+			}
+			var dr *DiffResult
+			s.Run(t, func() {
+				dr = Diff(oldDir, newDir, comp, DiffSeams{SourceSlice: rslice, Yield: s.Yield, CancelFirstAtRead: at, ReleaseFirstAtRead: releaseAt})
+			})
+			if s.BudgetExceeded {
+				return
+			}
+			if s.Stuck || s.Panic != "" || dr.Panic != "" || dr.Err != nil {
+				Violation(rt, "C15/diff-failed", "WritePatch on a DiffContext whose first attempt was cancelled (at source read %d, it returned %v): stuck=%v panic=%s%s err=%v", at, dr.FirstErr, s.Stuck, s.Panic, dr.Panic, dr.Err)
+				return
+			}
+			Ev.ProbeIf(dr.FirstErr != nil, "diff_retried_on_the_same_context_after_cancellation")
+			Ev.Fault("cancel_during_diff_then_retry", 1)
+			if !bytes.Equal(dr.Patch, refPatch) || !bytes.Equal(dr.Sig, refSig) {
+				Violation(rt, "C15/patch-nondeterministic", "a diff retried on the same DiffContext after its first attempt was cancelled (at source read %d, it returned %v) wrote other bytes than a diff from scratch (patch equal %v, first diff %d; signature equal %v) (comp %s)", at, dr.FirstErr, bytes.Equal(dr.Patch, refPatch), firstDiff(refPatch, dr.Patch), bytes.Equal(dr.Sig, refSig), CompString(comp))
 				return
 			}
 		}
